@@ -684,6 +684,11 @@ def _not_val(v):
     return None
 
 
+# discriminant values of the std sum types that `?` and early returns are made of
+_TAGS = {'Result::Ok': ('Result', 0), 'Result::Err': ('Result', 1), 'Option::None': ('Option', 0), 'Option::Some': ('Option', 1),
+         'ControlFlow::Continue': ('ControlFlow', 0), 'ControlFlow::Break': ('ControlFlow', 1)}
+
+
 def _flag_enum_variants(prog, crate, ty):
     a = prog.adts(crate).get(ty.lstrip('&'))
     if not a or a.get('kind') != 'Enum' or a.get('pub'):
@@ -819,6 +824,12 @@ def symbolic_paths(fn, src, dst, atom_of_call, avoid=(), max_paths=20000, prog=N
                         val = ('const', v == 'true')
                 elif is_place(o) and not o['pl']['p']:
                     val = env.get(o['pl']['l'])
+                elif is_place(o) and len(o['pl']['p']) == 2 and isinstance(o['pl']['p'][0], dict) and 'dc' in o['pl']['p'][0] and \
+                        isinstance(o['pl']['p'][1], dict) and o['pl']['p'][1].get('f') == '0':
+                    # the payload of a tracked Ok(..) / Some(..) / Continue(..)
+                    v = env.get(o['pl']['l'])
+                    if v is not None and v[0] == 'tag':
+                        val = v[3]
             elif r['rv'] == 'unop' and r.get('op') == 'Not':
                 o = r['ops'][0]
                 v = env.get(o['pl']['l']) if is_place(o) and not o['pl']['p'] else None
@@ -829,6 +840,16 @@ def symbolic_paths(fn, src, dst, atom_of_call, avoid=(), max_paths=20000, prog=N
                     val = ('discr', v[1])
                 elif v is not None and v[0] in ('variant', 'vcases'):
                     val = ('v' + 'discr', v)
+                elif v is not None and v[0] == 'tag':
+                    val = ('vdiscr', ('variant', v[2]))
+            elif r['rv'] == 'agg' and _TAGS.get(r['kind'].rsplit('::', 2)[-2] + '::' + r['kind'].rsplit('::', 1)[-1] if r['kind'].count('::') >= 2 else '') is not None \
+                    and re.search(r'^adt:(std|core)::(result::Result|option::Option|ops::ControlFlow)::', r['kind']):
+                # Ok(x) / Err(e) / Some(x) / None / Continue(x) / Break(r): which variant, and what is known about the payload
+                fam, k = _TAGS[r['kind'].rsplit('::', 2)[-2] + '::' + r['kind'].rsplit('::', 1)[-1]]
+                inner = None
+                if r.get('ops') and is_place(r['ops'][0]) and not r['ops'][0]['pl']['p']:
+                    inner = env.get(r['ops'][0]['pl']['l'])
+                val = ('tag', fam, k, inner)
             elif r['rv'] == 'agg' and not r.get('ops') and r['kind'].startswith('adt:') and prog is not None:
                 # a flag kept as a variant of a private field-less enum (`YearLoadState::NeedsLoad`): its index in the declaration
                 vi = _variant_index(prog, fn.crate, r['kind'][4:])
@@ -867,6 +888,11 @@ def symbolic_paths(fn, src, dst, atom_of_call, avoid=(), max_paths=20000, prog=N
                                     if m is not None:
                                         cases.append((m, x))
                                 val = ('cases', cases)
+                if val is None and c.short == 'branch' and c.decl.endswith('Try::branch') and c.args and is_place(c.args[0]) and not c.args[0]['pl']['p']:
+                    v = env.get(c.args[0]['pl']['l'])
+                    if v is not None and v[0] == 'tag' and v[1] in ('Result', 'Option'):
+                        cont = (v[2] == 0) if v[1] == 'Result' else (v[2] == 1)
+                        val = ('tag', 'ControlFlow', 0 if cont else 1, v[3] if cont else None)
                 if val is None and fn.ty.get(c.dst['l']) == 'bool':
                     # any other bool-valued call: an anonymous atom of its own (its outcome is unknown but it is one value)
                     val = ('atom', 'anon:%s:bb%d' % (fn.name, i), True)
@@ -1222,6 +1248,7 @@ def inline_view(prog, fn, should_inline=None, max_depth=3, max_blocks=6000):
     inlined = []
     inlined_fns = []
     ghosts = []
+    spliced_params = set()
     work = [(b, (fn.name,), 0, None) for b in blocks]
     by_bb = {b['bb']: b for b in blocks}
     while work:
@@ -1255,6 +1282,7 @@ def inline_view(prog, fn, should_inline=None, max_depth=3, max_blocks=6000):
         # bind parameters
         for ai, a in enumerate(t['args']):
             b['stmts'].append({'dst': {'l': loff + 1 + ai, 'p': []}, 'r': {'rv': 'use', 'ops': [a]}, 'sp': t['sp']})
+            spliced_params.add(loff + 1 + ai)
         new_blocks = []
         for gb in g.d['blocks']:
             if gb['cleanup']:
@@ -1279,6 +1307,7 @@ def inline_view(prog, fn, should_inline=None, max_depth=3, max_blocks=6000):
     view = Fn(nd, fn.crate, fn.name)
     view.inlined = inlined
     view.inlined_fns = inlined_fns
+    view.spliced_params = spliced_params      # parameters of spliced callees: plain copies of the arguments at the call
     view.origin = fn
     # the calls that were spliced stay visible (who-calls-whom rules, walks into the callee): listed in .calls, marked .inlined,
     # but not a definition of their destination — the spliced body assigns it
@@ -1479,7 +1508,9 @@ def expr_leaves(fn, operand, max_nodes=200, through=()):
                 consts.append(o.get('v', ''))
             continue
         l = o['pl']['l']
-        if (l in fn.user or fn.is_param(l)) and not (l in through and fn.single_def(l) is not None):
+        if (l in fn.user or fn.is_param(l)) and not (l in through and fn.single_def(l) is not None) and \
+                not (l in getattr(fn, 'spliced_params', ()) and not o['pl']['p'] and fn.single_def(l) is not None and
+                     fn.single_def(l)[2] == 'stmt' and fn.single_def(l)[3]['r']['rv'] == 'use'):
             users.add(l)
             continue
         if l in seen:
